@@ -55,6 +55,35 @@ func fieldRefOf(t types.Type, idx int) (FieldRef, bool) {
 	return FieldRef{Type: typeCanonName(n.Obj()), Pkg: pkg, Field: embeddedCanon(s.Field(idx))}, true
 }
 
+// fieldRefOfAddr is fieldRefOf for a field address, with grouping sub-structs looked through: when the struct whose
+// field is addressed is itself stored by value in a field of another struct of the same package (state grouped into
+// an embedded or named part), the access is attributed to the outer struct: execution.counters.attempts is
+// "execution.attempts", config.listeners.onAbort is "config.onAbort". Exported outer structs and pointers stop the climb.
+func fieldRefOfAddr(fa *ssa.FieldAddr) (FieldRef, bool) {
+	fr, ok := fieldRefOf(fa.X.Type(), fa.Field)
+	if !ok {
+		return fr, false
+	}
+	x := fa.X
+	for depth := 0; depth < 3; depth++ {
+		inner, isFA := x.(*ssa.FieldAddr)
+		if !isFA {
+			break
+		}
+		outer, ok2 := fieldRefOf(inner.X.Type(), inner.Field)
+		if !ok2 || outer.Pkg != fr.Pkg {
+			break
+		}
+		// the inner field must hold the part by value (its address is the part's address)
+		if _, isPtr := inner.Type().(*types.Pointer).Elem().Underlying().(*types.Struct); !isPtr {
+			break
+		}
+		fr = FieldRef{Type: outer.Type, Pkg: outer.Pkg, Field: fr.Field}
+		x = inner.X
+	}
+	return fr, true
+}
+
 // classify how the address produced by a FieldAddr is used: "r", "w" or "rw"/"escape".
 func addrUses(v ssa.Value, seen map[ssa.Value]bool) (read, write, escape bool) {
 	if seen[v] {
@@ -101,7 +130,7 @@ func BuildIndex(p *Program) *Index {
 			for _, in := range b.Instrs {
 				switch x := in.(type) {
 				case *ssa.FieldAddr:
-					fr, ok := fieldRefOf(x.X.Type(), x.Field)
+					fr, ok := fieldRefOfAddr(x)
 					if !ok {
 						continue
 					}
@@ -196,9 +225,22 @@ func (p *Program) structFields(rel, name string) []*types.Var {
 		return nil
 	}
 	var out []*types.Var
-	for i := 0; i < s.NumFields(); i++ {
-		out = append(out, s.Field(i))
+	var walk func(s *types.Struct, depth int)
+	walk = func(s *types.Struct, depth int) {
+		for i := 0; i < s.NumFields(); i++ {
+			f := s.Field(i)
+			// grouping parts held by value (same package, unexported struct type) are looked through, like
+			// fieldRefOfAddr does for accesses
+			if pn, isN := f.Type().(*types.Named); isN && pn.Obj().Pkg() == n.Obj().Pkg() && !pn.Obj().Exported() && depth < 3 {
+				if ps, isStruct := pn.Underlying().(*types.Struct); isStruct {
+					walk(ps, depth+1)
+					continue
+				}
+			}
+			out = append(out, f)
+		}
 	}
+	walk(s, 0)
 	return out
 }
 
